@@ -27,6 +27,7 @@ var (
 	SameProposalNotify = errors.New("Same proposal has been made.")
 	JustifyVotesEmpty  = errors.New("justify qc's votes are empty.")
 	EmptyTarget        = errors.New("Target parameter is empty.")
+	VoteViewMismatch   = errors.New("Vote's view differs from the view of the local proposal.")
 )
 
 const (
@@ -477,9 +478,15 @@ func (s *Smr) handleReceivedVoteMsg(msg *xuperp2p.XuperMessage) error {
 		s.log.Debug("smr::handleReceivedVoteMsg::haven't received the related proposal msg, drop it.")
 		return EmptyTarget
 	}
-	if node := s.qcTree.DFSQueryNode(voteQC.GetProposalId()); node == nil {
+	node := s.qcTree.DFSQueryNode(voteQC.GetProposalId())
+	if node == nil {
 		s.log.Debug("smr::handleReceivedVoteMsg::haven't finish proposal process, drop it.")
 		return EmptyTarget
+	}
+	// vote声明的view不在签名范围内, 必须与本地proposal的view一致, 否则validators和票数阈值会按错误的view计算
+	if node.In.GetProposalView() != voteQC.GetProposalView() {
+		s.log.Debug("smr::handleReceivedVoteMsg::vote view differs from the proposal's view, drop it.", "voteView", voteQC.GetProposalView(), "proposalView", node.In.GetProposalView())
+		return VoteViewMismatch
 	}
 
 	// 自己给自己投票将自动忽略, 包括最先到达的一票: CalVotesThreshold已经隐式计入了自己
